@@ -278,3 +278,55 @@ func VerifH_C05_Connect() {
 		verifAssert(verifBytesEq(p.pass, []byte(pass)), "C05.connect_pass")
 	}
 }
+
+// C05 (h): conversely, PUBLISH packets from the broker are delivered with exactly the encoded
+// topic, payload and flags — also a QoS 2 message that is parked until its PUBREL while
+// further packets are read.
+func VerifH_C05_Inbound() {
+	var log []c04Event
+	conn := &c04Conn{log: &log}
+	cli := &BaseClient{Transport: conn}
+	cli.init()
+	var got []*Message
+	cli.Handle(HandlerFunc(func(m *Message) { got = append(got, m) }))
+	type in struct {
+		topic, payload []byte
+		id             uint16
+		qos            byte
+		dup, retain    bool
+	}
+	mk := func(qos byte) in {
+		return in{topic: verifLetterBytes("topic", verifChoice("tlen", 2)+1), payload: verifBytes("payload", verifChoice("plen", 3)),
+			id: verifNondetU16("id"), qos: qos, dup: verifNondetBool("dup"), retain: verifNondetBool("retain")}
+	}
+	a := mk(2)
+	b := mk(byte(verifChoice("qosb", 2)))
+	if b.qos == 0 {
+		b.dup = false
+	}
+	add := func(p []byte) {
+		conn.starts = append(conn.starts, len(conn.stream))
+		conn.stream = append(conn.stream, p...)
+	}
+	add(refEncodePublish(a.topic, a.id, a.qos, a.dup, a.retain, a.payload))
+	add(refEncodePublish(b.topic, b.id, b.qos, b.dup, b.retain, b.payload))
+	add(refEncodeAck(0x62, a.id))
+	_ = cli.serve()
+	verifReach("served")
+	verifAssert(len(got) == 2, "C05.inbound_both_delivered")
+	if len(got) != 2 {
+		return
+	}
+	chk := func(m *Message, w in, tag string) {
+		verifAssert(verifBytesEq([]byte(m.Topic), w.topic), "C05.inbound_topic"+tag)
+		verifAssert(verifBytesEq(m.Payload, w.payload), "C05.inbound_payload"+tag)
+		verifAssert(byte(m.QoS) == w.qos, "C05.inbound_qos"+tag)
+		verifAssert(m.Dup == w.dup, "C05.inbound_dup"+tag)
+		verifAssert(m.Retain == w.retain, "C05.inbound_retain"+tag)
+		if w.qos > 0 {
+			verifAssert(m.ID == w.id, "C05.inbound_id"+tag)
+		}
+	}
+	chk(got[0], b, "")
+	chk(got[1], a, "_parked_qos2")
+}
